@@ -102,6 +102,18 @@ theorem lexCmp_spec {nb : BitVec 8} (hl : LayoutOk nb) (nal : Bool) (a b : BitVe
             · exact h4 h'.2
           exact ⟨⟨fun h => by omega, fun h => absurd h n1⟩, ⟨fun h => by omega, fun h => absurd h n2⟩⟩
 
+/-- **ids are time-ordered**: an id with a strictly earlier timestamp is strictly smaller, whatever node and step either
+    carries — sorting ids sorts by creation millisecond -/
+theorem id_order_time {nb : BitVec 8} (hl : LayoutOk nb) (nal : Bool) (a b : BitVec 64) (ha : 0 ≤ a.toInt) (hb : 0 ≤ b.toInt)
+    (h : (idFields a nb nal).1.toInt < (idFields b nb nal).1.toInt) : a.toInt < b.toInt :=
+  (id_order_lex hl nal a b ha hb).2 (Or.inl h)
+
+/-- conversely a smaller id never has a later timestamp -/
+theorem id_order_time_le {nb : BitVec 8} (hl : LayoutOk nb) (nal : Bool) (a b : BitVec 64) (ha : 0 ≤ a.toInt) (hb : 0 ≤ b.toInt)
+    (h : a.toInt ≤ b.toInt) : (idFields a nb nal).1.toInt ≤ (idFields b nb nal).1.toInt := by
+  by_cases h' : (idFields b nb nal).1.toInt < (idFields a nb nal).1.toInt
+  · have := id_order_time hl nal b a hb ha h'; omega
+  · omega
 /-! ### id interval of a time interval -/
 
 /-- `TimeIDRange(t)` is `TimeBetweenID(t, t)` -/
